@@ -122,6 +122,13 @@ func (t *termer) term(v ssa.Value, d int) string {
 	case *ssa.FreeVar:
 		return "&" + vname(v)
 	case *ssa.Alloc:
+		if sv := singleStoreValue(v); sv != nil && !t.visiting[v] {
+			// a local that is assigned exactly once and only read afterwards (`for _, item := range xs`,
+			// `x := f()` whose field is then read): it IS that value, whatever it is called
+			t.visiting[v] = true
+			defer delete(t.visiting, v)
+			return "&" + t.term(sv, d+1)
+		}
 		if n, ok := varName(v); ok {
 			return "&" + n
 		}
@@ -364,4 +371,49 @@ func fdisp(fv *types.Var) string {
 		return n
 	}
 	return fv.Name()
+}
+
+// singleStoreValue: the local is written by exactly one plain store of a struct
+// value and otherwise only read (directly or field by field); nil otherwise.
+func singleStoreValue(al *ssa.Alloc) ssa.Value {
+	if al.Referrers() == nil {
+		return nil
+	}
+	if _, isStruct := deref(al.Type()).Underlying().(*types.Struct); !isStruct {
+		return nil
+	}
+	var stored ssa.Value
+	for _, r := range *al.Referrers() {
+		switch x := r.(type) {
+		case *ssa.Store:
+			if x.Addr != ssa.Value(al) || stored != nil {
+				return nil
+			}
+			stored = x.Val
+		case *ssa.FieldAddr:
+			if x.Referrers() == nil {
+				continue
+			}
+			for _, r2 := range *x.Referrers() {
+				if u, ok := r2.(*ssa.UnOp); !ok || u.Op != token.MUL {
+					if _, isDbg := r2.(*ssa.DebugRef); !isDbg {
+						return nil
+					}
+				}
+			}
+		case *ssa.UnOp:
+			if x.Op != token.MUL {
+				return nil
+			}
+		case *ssa.DebugRef:
+		default:
+			return nil
+		}
+	}
+	// only for values read from somewhere (an element, a field, a call result), not for literals built in place
+	switch stored.(type) {
+	case *ssa.UnOp, *ssa.Call, *ssa.Extract, *ssa.Lookup, *ssa.Index, *ssa.Field:
+		return stored
+	}
+	return nil
 }
